@@ -41,6 +41,10 @@ func (f *Producer) OpenDB(name string) (kvdb.Store, error) {
 		DropFn: func() {
 			f.mu.Lock()
 			delete(f.dbs, name)
+			// the set of DBs is going to change: mark the remaining DBs as dirty first
+			for _, other := range f.dbs {
+				_ = other.modified()
+			}
 			f.mu.Unlock()
 			_ = db.Close()
 			db.Drop()
